@@ -7,6 +7,7 @@ package main
 
 import (
 	"context"
+	"crypto/x509"
 	"errors"
 	"fmt"
 	"sort"
@@ -81,6 +82,11 @@ type scen struct {
 	Processed []string          `json:"processed,omitempty"`
 	TI        int               `json:"ti_verdict"` // 0 missing, 1 success, 2 failure, 3 nil entry
 	Rev       int               `json:"rev_verdict"`
+	EmptyOv   bool              `json:"empty_override_map,omitempty"`   // override = empty non-nil map
+	NilVR     bool              `json:"nil_verdict_map,omitempty"`      // plugin answers with a nil verificationResults map
+	EmptyProc bool              `json:"empty_processed,omitempty"`      // processedAttributes = empty non-nil slice
+	HdrLast   bool              `json:"plugin_headers_last,omitempty"`  // plugin headers after the other attributes in the envelope
+	Step      string            `json:"history_step,omitempty"`         // position in a history on one verifier instance
 	// observation
 	ObsErr     string   `json:"obs_err"`
 	ObsResults []string `json:"obs_results"`
@@ -95,6 +101,7 @@ type envKey struct {
 	nonstring            bool
 	expired, chainExpird bool
 	integrity            bool
+	hdrLast              bool
 }
 
 func capCoq(c string) string {
@@ -164,7 +171,7 @@ func run(a *Args) error {
 	desc := ocispec.Descriptor{MediaType: "application/vnd.oci.image.manifest.v1+json", Digest: digest.Digest(strings.TrimPrefix(TestRef, TestScope+"@")), Size: 528}
 	payload := PayloadFor(desc)
 	envCache := map[envKey][]byte{}
-	getEnv := func(k envKey) []byte {
+	getEnv := func(k envKey, otherCrit, otherNon []string) []byte {
 		if b, ok := envCache[k]; ok {
 			return b
 		}
@@ -179,20 +186,22 @@ func run(a *Args) error {
 				attrs = append(attrs, signature.Attribute{Key: key, Critical: true, Value: s.Val})
 			}
 		}
-		mk(hdrPlugin, k.plugin)
-		mk(hdrMinVer, k.minver)
-		if k.other != "" {
-			for _, o := range strings.Split(k.other, ",") {
-				attrs = append(attrs, signature.Attribute{Key: o, Critical: true, Value: "v-" + o})
-			}
+		if !k.hdrLast {
+			mk(hdrPlugin, k.plugin)
+			mk(hdrMinVer, k.minver)
 		}
-		if k.othernon != "" {
-			for _, o := range strings.Split(k.othernon, ",") {
-				attrs = append(attrs, signature.Attribute{Key: o, Critical: false, Value: "n-" + o})
-			}
+		for _, o := range otherCrit {
+			attrs = append(attrs, signature.Attribute{Key: o, Critical: true, Value: "v-" + o})
+		}
+		for _, o := range otherNon {
+			attrs = append(attrs, signature.Attribute{Key: o, Critical: false, Value: "n-" + o})
 		}
 		if k.nonstring {
 			attrs = append(attrs, signature.Attribute{Key: int64(1000), Critical: true, Value: "int-labelled"})
+		}
+		if k.hdrLast {
+			mk(hdrMinVer, k.minver)
+			mk(hdrPlugin, k.plugin)
 		}
 		chain := good
 		st := now.Add(-2 * time.Hour)
@@ -295,20 +304,26 @@ func run(a *Args) error {
 	capSets := [][]string{{}, {"Other"}, {"TI"}, {"Rev"}, {"TI", "Rev"}, {"Rev", "TI"}, {"Other", "TI"}, {"Rev", "Other"}, {"TI", "Other", "Rev"}}
 	otherSets := [][]string{{}, {}, {"foo"}, {"bar", "foo"}}
 
-	var id int64
-	// exec realises one scenario; returns whether the verifier accepted (nil error)
-	exec := func(s *scen) (ran, accepted bool) {
-		my := id
-		id++
-		if !w.Want(my) {
-			return false, false
-		}
-		// ---- realise ----
+	// a rig is one verifier instance with its injected components; a fresh one per case, except in
+	// the history family where several cases run in sequence on ONE instance (state across calls)
+	type rig struct {
+		key      string
+		store    *MockStore
+		script   *RevScript
+		revCalls *[]RevCall
+		mgr      *MockManager
+		v        notation.Verifier
+		err      error
+	}
+	rigKey := func(s *scen) string {
+		return fmt.Sprintf("%s|%v|%v|%v|%v", s.Level, s.Override, s.EmptyOv, s.Identity, s.PM == 0)
+	}
+	newRig := func(s *scen) *rig {
 		ov := map[trustpolicy.ValidationType]trustpolicy.ValidationAction{}
 		for k, v := range s.Override {
 			ov[trustpolicy.ValidationType(k)] = trustpolicy.ValidationAction(v)
 		}
-		if len(ov) == 0 {
+		if len(ov) == 0 && !s.EmptyOv {
 			ov = nil
 		}
 		identities := []string{"*"}
@@ -316,7 +331,37 @@ func run(a *Args) error {
 			identities = []string{"x509.subject: CN=somebody else,O=Verif,ST=WA,C=US"}
 		}
 		doc := OCIPolicy(s.Level, ov, []string{"ca:s"}, identities, "")
-		store := NewMockStore()
+		r := &rig{key: rigKey(s), store: NewMockStore()}
+		r.script, r.revCalls = NewRevScript(nil, nil)
+		opts := verifier.VerifierOptions{OCITrustPolicy: doc, RevocationCodeSigningValidator: r.script.Validator()}
+		if s.PM != 0 {
+			r.mgr = &MockManager{Plugins: map[string]*MockPlugin{}}
+			opts.PluginManager = r.mgr
+		}
+		r.v, r.err = verifier.NewVerifierWithOptions(r.store, opts)
+		return r
+	}
+
+	var id int64
+	prime := map[int64]bool{} // replay of a history step: the earlier steps are executed, not recorded
+	// exec realises one scenario (on the given rig, or on a fresh one); returns whether the verifier accepted (nil error)
+	exec := func(s *scen, shared *rig) (ran, accepted bool) {
+		my := id
+		id++
+		want := w.Want(my)
+		if !want && !prime[my] {
+			return false, false
+		}
+		// ---- realise ----
+		rg := shared
+		if rg == nil {
+			rg = newRig(s)
+		} else if rg.key != rigKey(s) {
+			panic("c02: history step does not fit its verifier instance")
+		}
+		store, script, revCalls, mgr := rg.store, rg.script, rg.revCalls, rg.mgr
+		store.Certs = map[StoreKey][]*x509.Certificate{}
+		store.Fail = map[StoreKey]bool{}
 		switch s.Auth {
 		case 0:
 			store.Put(truststore.TypeCA, "s", good[2].C, old[2].C)
@@ -341,17 +386,15 @@ func run(a *Args) error {
 			}
 			results = append(results, &revresult.CertRevocationResult{Result: r})
 		}
-		var revErr error
+		script.Results, script.Err = results, nil
 		if s.RevMode == 3 {
-			revErr = errors.New("mock: validator failure")
+			script.Err = errors.New("mock: validator failure")
 		}
-		script, revCalls := NewRevScript(results, revErr)
-		opts := verifier.VerifierOptions{OCITrustPolicy: doc, RevocationCodeSigningValidator: script.Validator()}
-		var mgr *MockManager
+		*revCalls = nil
 		var plug *MockPlugin
-		if s.PM != 0 {
-			mgr = &MockManager{Plugins: map[string]*MockPlugin{}}
-			opts.PluginManager = mgr
+		if mgr != nil {
+			mgr.Gets = nil
+			mgr.Plugins = map[string]*MockPlugin{}
 			if s.PM >= 2 && s.Plugin.State == aStr {
 				plug = &MockPlugin{}
 				mgr.Plugins[s.Plugin.Val] = plug
@@ -359,6 +402,9 @@ func run(a *Args) error {
 					plug.MetaErr = errors.New("mock: metadata failure")
 				} else {
 					var caps []pluginfw.Capability
+					if s.Caps != nil {
+						caps = []pluginfw.Capability{}
+					}
 					for _, c := range s.Caps {
 						caps = append(caps, capFw(c))
 					}
@@ -380,7 +426,13 @@ func run(a *Args) error {
 						}
 						set(pluginfw.CapabilityTrustedIdentityVerifier, s.TI)
 						set(pluginfw.CapabilityRevocationCheckVerifier, s.Rev)
+						if s.NilVR {
+							vr = nil
+						}
 						var processed []interface{}
+						if s.EmptyProc {
+							processed = []interface{}{}
+						}
 						for _, p := range s.Processed {
 							processed = append(processed, p)
 						}
@@ -389,11 +441,12 @@ func run(a *Args) error {
 				}
 			}
 		}
-		v, err := verifier.NewVerifierWithOptions(store, opts)
+		v, err := rg.v, rg.err
+
 		obs := "None"
 		if err == nil {
 			s.ObsBuilt = true
-			env := getEnv(envKey{s.Format, s.Plugin, s.MinVer, strings.Join(s.OtherCrit, ","), strings.Join(s.OtherNon, ","), s.NonString, s.Expired, !s.TsOK, s.Integrity})
+			env := getEnv(envKey{s.Format, s.Plugin, s.MinVer, fmt.Sprintf("%q", s.OtherCrit), fmt.Sprintf("%q", s.OtherNon), s.NonString, s.Expired, !s.TsOK, s.Integrity, s.HdrLast}, s.OtherCrit, s.OtherNon)
 			outcome, verr := v.Verify(context.Background(), desc, env, notation.VerifierVerifyOptions{ArtifactReference: TestRef, SignatureMediaType: s.Format})
 			accepted = verr == nil
 			// error class
@@ -462,6 +515,9 @@ func run(a *Args) error {
 			}
 			obs = CSome(CApp("mk_obs", errT, CList(rs), CBool(len(*revCalls) > 0), CStrList(gets), execT))
 		}
+		if !want {
+			return true, accepted
+		}
 		// ---- input term ----
 		pm := "PMNil"
 		switch s.PM {
@@ -489,6 +545,9 @@ func run(a *Args) error {
 		presp := "PErr"
 		if !s.RespErr {
 			verd := func(v int) string {
+				if s.NilVR {
+					return "None"
+				}
 				switch v {
 				case 1:
 					return "(Some true)"
@@ -635,7 +694,7 @@ func run(a *Args) error {
 			s := base(fam, l)
 			mk(s)
 			my := id
-			ran, acc := exec(s)
+			ran, acc := exec(s, nil)
 			if ran && s.ObsBuilt {
 				rs = append(rs, res{l.enf, acc, my, s})
 			}
@@ -667,7 +726,7 @@ func run(a *Args) error {
 	corp := func(f func(s *scen)) {
 		s := base("corpus", strict)
 		f(s)
-		exec(s)
+		exec(s, nil)
 	}
 	// F12a: critical attribute, no plugin named
 	corp(func(s *scen) { s.OtherCrit = []string{"foo"} })
@@ -721,44 +780,61 @@ func run(a *Args) error {
 		{name: "audit", ov: map[string]string{"revocation": "skip", "authenticity": "skip"}},
 	}
 	for _, l := range illegal {
-		exec(base("illegal", l))
+		exec(base("illegal", l), nil)
 	}
 
 	// 3. plugin version against the demanded minimum
 	verPairs := [][2]string{{"1.2.0", "1.2.0"}, {"1.2.0", "1.10.0"}, {"1.10.0", "1.2.0"}, {"0.9.0", "1.0.0"}, {"2.0.0", "1.0.0"},
-		{"2.0.0-rc.1", "2.0.0"}, {"2.0.0", "2.0.0-rc.1"}, {"1.0.0", "2.0.0"}, {"1.2.0", "1.0"}, {"1.2", "1.0.0"}, {"v1", "1.0.0"}, {"1.2.0", "x"}}
+		{"2.0.0-rc.1", "2.0.0"}, {"2.0.0", "2.0.0-rc.1"}, {"1.0.0", "2.0.0"}, {"1.2.0", "1.0"}, {"1.2", "1.0.0"}, {"v1", "1.0.0"}, {"1.2.0", "x"},
+		// rarely used legal syntax: build metadata (ignored by precedence), pre-release ordering, leading zeros (illegal)
+		{"1.2.0+build.5", "1.2.0"}, {"1.2.0", "1.2.0+build.5"}, {"1.2.0-alpha", "1.2.0-alpha.1"}, {"1.2.0-alpha.1", "1.2.0-alpha"},
+		{"1.2.0-rc.10", "1.2.0-rc.9"}, {"1.2.0-rc.9", "1.2.0-rc.10"}, {"01.2.0", "1.0.0"}, {"1.2.0", "01.0.0"}, {"", "1.0.0"}}
+	pluginNames := []string{"plug", "Plug.V2", ".hidden-plug", "plug+x"}
 	for _, vp := range verPairs {
 		for _, ln := range []string{"strict", "audit"} {
 			s := base("versions", lv{name: ln})
-			s.Plugin = attrSpec{State: aStr, Val: "plug"}
+			s.Plugin = attrSpec{State: aStr, Val: pluginNames[int(id)%len(pluginNames)]}
 			s.MinVer = attrSpec{State: aStr, Val: vp[1]}
 			s.PM, s.Version, s.Caps = 3, vp[0], []string{"TI", "Rev"}
-			exec(s)
+			exec(s, nil)
 		}
 	}
 
 	// 4. the table
 	if a.Tier != "thorough" {
-		// every subset of simultaneously failing native validations x every plugin situation, under every map
+		// every subset of simultaneously failing native validations x every plugin situation, under every map;
+		// situations whose outcome cannot depend on the native validations (not installed, too old,
+		// no capability) get four subsets only, the plugin-executing ones two verdict/attribute combinations each
 		for f := 0; f < 32; f++ {
 			for sit := 0; sit < 7; sit++ {
-				c := combos[sit][(f*5+sit)%len(combos[sit])]
-				r := rng.Fork(uint64(f*7 + sit))
-				auth, rev, format := 1+r.Intn(3), 1+r.Intn(3), Pick(r, []string{MtJWS, MtCOSE})
-				group("table", func(s *scen) {
-					rr := *r // same choices for every map of the group
-					s.Format = format
-					if f&1 != 0 {
-						s.Auth = auth
+				reps := 1
+				switch {
+				case sit >= 1 && sit <= 3:
+					if f != 0 && f != 1 && f != 6 && f != 31 {
+						continue
 					}
-					s.Identity = f&2 == 0
-					s.Expired = f&4 != 0
-					s.TsOK = f&8 == 0
-					if f&16 != 0 {
-						s.RevMode = rev
-					}
-					applySit(s, c, &rr)
-				})
+				case sit >= 4:
+					reps = 2
+				}
+				for rep := 0; rep < reps; rep++ {
+					c := combos[sit][(f*5+sit+rep*13)%len(combos[sit])]
+					r := rng.Fork(uint64((f*7+sit)*2 + rep))
+					auth, rev, format := 1+r.Intn(3), 1+r.Intn(3), Pick(r, []string{MtJWS, MtCOSE})
+					group("table", func(s *scen) {
+						rr := *r // same choices for every map of the group
+						s.Format = format
+						if f&1 != 0 {
+							s.Auth = auth
+						}
+						s.Identity = f&2 == 0
+						s.Expired = f&4 != 0
+						s.TsOK = f&8 == 0
+						if f&16 != 0 {
+							s.RevMode = rev
+						}
+						applySit(s, c, &rr)
+					})
+				}
 			}
 		}
 	} else {
@@ -789,7 +865,175 @@ func run(a *Args) error {
 		}
 	}
 
-	// 5. random scenarios (malformed headers, rare plugin situations, both formats)
+	// 5. histories: ONE verifier instance, several verifications in sequence whose expected verdict changes
+	plugScen := func(fam string, l lv, caps ...string) *scen {
+		s := base(fam, l)
+		s.Plugin = attrSpec{State: aStr, Val: "plug"}
+		s.PM, s.Version, s.Caps = 3, "1.2.0", caps
+		return s
+	}
+	type step func(s *scen)
+	noop := func(s *scen) {}
+	withPlug := func(caps ...string) step {
+		return func(s *scen) {
+			s.Plugin = attrSpec{State: aStr, Val: "plug"}
+			s.PM, s.Version, s.Caps = 3, "1.2.0", caps
+		}
+	}
+	seq := func(fs ...step) step {
+		return func(s *scen) {
+			for _, f := range fs {
+				f(s)
+			}
+		}
+	}
+	histories := [][]step{
+		{noop, func(s *scen) { s.Expired = true }, noop},
+		{func(s *scen) { s.RevMode = 1 }, noop, func(s *scen) { s.RevMode = 3 }, noop},
+		{noop, func(s *scen) { s.Auth = 1 }, noop, func(s *scen) { s.Auth = 3 }},
+		{func(s *scen) { s.TsOK = false }, noop},
+		{withPlug("TI"), seq(withPlug("TI"), func(s *scen) { s.TI = 2 }), withPlug("TI")},
+		{seq(withPlug("Rev"), func(s *scen) { s.Rev = 2 }), withPlug("Rev"), seq(withPlug("Rev"), func(s *scen) { s.Rev = 0 })},
+		// the capabilities of the same plugin change between calls (a metadata memo would be wrong)
+		{withPlug("TI"), seq(withPlug("Rev"), func(s *scen) { s.TI = 2 }), seq(withPlug("TI", "Rev"), func(s *scen) { s.Rev = 2 }), withPlug("Other")},
+		// plugin installed, then not, then installed; another plugin in between
+		{withPlug("TI"), seq(withPlug("TI"), func(s *scen) { s.PM = 1 }), withPlug("TI"),
+			seq(withPlug("TI"), func(s *scen) { s.Plugin.Val = "other-plugin"; s.TI = 2 }), withPlug("TI")},
+		// no plugin demanded / demanded / not demanded (a memo of "needs plugin" would be wrong)
+		{func(s *scen) { s.OtherCrit = []string{"foo"} }, seq(withPlug("TI"), func(s *scen) { s.OtherCrit = []string{"foo"}; s.Processed = []string{"foo"} }),
+			func(s *scen) { s.OtherCrit = []string{"foo"} }, noop},
+		// critical attribute processed / unprocessed / processed
+		{seq(withPlug("TI"), func(s *scen) { s.OtherCrit = []string{"foo"}; s.Processed = []string{"foo"} }),
+			seq(withPlug("TI"), func(s *scen) { s.OtherCrit = []string{"foo"} }),
+			seq(withPlug("TI"), func(s *scen) { s.OtherCrit = []string{"foo"}; s.Processed = []string{"foo"} })},
+		// plugin version good / too low / good; plugin error / fine
+		{withPlug("TI"), seq(withPlug("TI"), func(s *scen) { s.Version = "0.9.0"; s.MinVer = attrSpec{State: aStr, Val: "1.0.0"} }), withPlug("TI"),
+			seq(withPlug("TI"), func(s *scen) { s.RespErr = true }), withPlug("TI")},
+		// the known finding between two ordinary verifications
+		{withPlug("Rev"), seq(withPlug("Rev"), func(s *scen) { s.OtherCrit = []string{"foo"} }), withPlug("Rev")},
+	}
+	histLevels := []lv{{name: "strict"}, {name: "permissive"}, {name: "audit"},
+		{name: "strict", ov: map[string]string{"revocation": "skip"}},
+		{name: "permissive", ov: map[string]string{"expiry": "enforce", "revocation": "enforce"}},
+		{name: "audit", ov: map[string]string{"authenticity": "enforce", "authenticTimestamp": "enforce"}}}
+	runHistory := func(l lv, identity bool, steps []*scen) {
+		if a.Only >= id && a.Only < id+int64(len(steps)) {
+			for j := id; j < a.Only; j++ {
+				prime[j] = true
+			}
+		}
+		var rg *rig
+		for i, s := range steps {
+			s.Identity = identity
+			if s.PM == 0 {
+				s.PM = 1 // the instance has a plugin manager
+			}
+			s.Step = fmt.Sprintf("%d/%d", i+1, len(steps))
+			if rg == nil {
+				rg = newRig(s)
+			}
+			exec(s, rg)
+		}
+	}
+	for li, l := range histLevels {
+		for hi, h := range histories {
+			var steps []*scen
+			for _, st := range h {
+				s := base("history", l)
+				st(s)
+				steps = append(steps, s)
+			}
+			runHistory(l, (li+hi)%5 != 0, steps)
+		}
+	}
+
+	// 6. positions: the foreign capability at every position, both orders of the two verification
+	// capabilities; the unprocessed attribute first / middle / last; plugin headers first or last
+	capOrders := [][]string{{"Other", "TI", "Rev"}, {"TI", "Other", "Rev"}, {"TI", "Rev", "Other"}, {"Other", "Rev", "TI"}, {"Rev", "Other", "TI"},
+		{"Rev", "TI", "Other"}, {"Other", "TI"}, {"TI", "Other"}, {"Other", "Rev"}, {"Rev", "Other"}, {"Other", "Other", "TI"}, {"Other", "TI", "Other", "Rev", "Other"}}
+	posLevels := []lv{{name: "strict"}, {name: "permissive"}, {name: "strict", ov: map[string]string{"revocation": "skip"}}}
+	for _, co := range capOrders {
+		for _, vd := range [][2]int{{2, 1}, {1, 2}, {0, 1}, {1, 0}, {1, 1}} {
+			for _, l := range posLevels {
+				s := plugScen("positions", l, co...)
+				s.TI, s.Rev = vd[0], vd[1]
+				exec(s, nil)
+			}
+		}
+	}
+	type attrCase struct {
+		crit, non, processed []string
+	}
+	attrCases := []attrCase{
+		{[]string{"a", "m", "z"}, nil, []string{"m", "z"}}, {[]string{"a", "m", "z"}, nil, []string{"a", "z"}}, {[]string{"a", "m", "z"}, nil, []string{"a", "m"}},
+		{[]string{"a", "m", "z"}, nil, []string{"z", "m", "a"}},
+		{[]string{"a", "z"}, []string{"m"}, []string{"a", "z"}}, {[]string{"a", "z"}, []string{"m"}, []string{"z", "m", "a"}},
+		{[]string{"a", "z"}, []string{"m"}, []string{"m", "z"}}, {[]string{"a", "z"}, []string{"m"}, []string{"a", "m"}},
+		{[]string{"m"}, []string{"a", "z"}, []string{"m"}}, {[]string{"m"}, []string{"a", "z"}, []string{"a", "z"}},
+	}
+	for _, ac := range attrCases {
+		for _, format := range []string{MtJWS, MtCOSE} {
+			for _, last := range []bool{false, true} {
+				s := plugScen("positions", lv{name: "strict"}, "TI")
+				s.Format, s.HdrLast = format, last
+				s.OtherCrit, s.OtherNon, s.Processed = ac.crit, ac.non, ac.processed
+				exec(s, nil)
+				// the same attributes on a signature that demands no plugin
+				s2 := base("positions", lv{name: "audit"})
+				s2.Format, s2.HdrLast = format, last
+				s2.OtherCrit, s2.OtherNon = ac.crit, ac.non
+				exec(s2, nil)
+			}
+		}
+	}
+
+	// 7. empty vs absent vs nil
+	edge := func(l lv, f func(s *scen), caps ...string) {
+		defer func() {
+			if r := recover(); r != nil {
+				w.Count("edge_not_realisable", fmt.Sprint(r)[:40])
+			}
+		}()
+		var s *scen
+		if caps != nil {
+			s = plugScen("edge", l, caps...)
+		} else {
+			s = base("edge", l)
+		}
+		f(s)
+		exec(s, nil)
+	}
+	for _, l := range []lv{{name: "strict"}, {name: "audit"}, {name: "permissive", ov: map[string]string{}}} {
+		edge(l, func(s *scen) { s.EmptyOv = true })
+		edge(l, func(s *scen) { s.EmptyOv = true; s.Expired = true; s.RevMode = 1 })
+		edge(l, func(s *scen) { s.Expired = true; s.RevMode = 1 })
+		edge(l, func(s *scen) { s.NilVR = true }, "TI", "Rev")
+		edge(l, func(s *scen) { s.NilVR = true }, "Rev")
+		edge(l, func(s *scen) { s.TI, s.Rev = 3, 1 }, "TI", "Rev")
+		edge(l, func(s *scen) { s.TI, s.Rev = 1, 3 }, "TI", "Rev")
+		edge(l, func(s *scen) { s.TI, s.Rev = 0, 0 }, "Rev", "TI")
+		edge(l, func(s *scen) { s.EmptyProc = true }, "TI")
+		edge(l, func(s *scen) { s.EmptyProc = true; s.OtherCrit = []string{"foo"} }, "TI")
+		edge(l, func(s *scen) { s.EmptyProc = true; s.OtherNon = []string{"note"} }, "TI")
+		edge(l, func(s *scen) { s.Plugin.Val = "" }, "TI")
+		edge(l, func(s *scen) { s.Plugin.Val = " " }, "TI")
+		edge(l, func(s *scen) { s.MinVer = attrSpec{State: aStr, Val: ""} }, "TI")
+		edge(l, func(s *scen) { s.MinVer = attrSpec{State: aStr, Val: "  "} }, "TI")
+		edge(l, func(s *scen) { s.MinVer = attrSpec{State: aStr, Val: ""} })
+		edge(l, func(s *scen) { s.MinVer = attrSpec{State: aNotCritical} })
+		edge(l, func(s *scen) { s.MinVer = attrSpec{State: aNotString} })
+		edge(l, func(s *scen) { s.Version = "" }, "TI")
+		edge(l, func(s *scen) { s.Caps = nil }, "TI")
+		edge(l, func(s *scen) { s.Caps = []string{} }, "TI")
+		edge(l, func(s *scen) { s.OtherCrit = []string{""} })
+		edge(l, func(s *scen) { s.OtherCrit = []string{""}; s.Processed = []string{""} }, "TI")
+		edge(l, func(s *scen) { s.OtherCrit = []string{""} }, "TI")
+		edge(l, func(s *scen) { s.OtherNon = []string{""} })
+		edge(l, func(s *scen) { s.PM = 0 }, "TI")
+		edge(l, func(s *scen) { s.PM = 2 }, "TI")
+	}
+
+	// 8. random scenarios (malformed headers, rare plugin situations, both formats)
 	gen := func(k int) *scen {
 		l := levels[k%len(levels)]
 		s := base("random", l)
@@ -878,7 +1122,7 @@ func run(a *Args) error {
 		n = 40000
 	}
 	for k := 0; k < n; k++ {
-		exec(gen(k))
+		exec(gen(k), nil)
 	}
 	w.Set("monotonicity_pairs_checked_on_implementation", monoPairs)
 	w.Set("monotonicity_violations_on_implementation", monoViol)
@@ -887,7 +1131,8 @@ func run(a *Args) error {
 
 // validity of the version strings used by this driver under SemVer 2.0 (a fixed
 // table: the oracle is the specification, not the code under test)
-var validSemver = map[string]bool{"1.2.0": true, "0.9.0": true, "2.0.0-rc.1": true, "v1": false, "1.2": false,
+var validSemver = map[string]bool{"1.2.0+build.5": true, "1.2.0-alpha": true, "1.2.0-alpha.1": true, "1.2.0-rc.10": true, "1.2.0-rc.9": true,
+	"01.2.0": false, "01.0.0": false, "": false, "1.2.0": true, "0.9.0": true, "2.0.0-rc.1": true, "v1": false, "1.2": false,
 	"1.0.0": true, "1.10.0": true, "2.0.0": true, "1.0": false, "  ": false, "x": false}
 
 func vtypeCoq(t trustpolicy.ValidationType) string {
